@@ -56,17 +56,20 @@ Section Stop.
     let r := step s c i in msg_true (fst (fst r)) (snd (fst r)) (snd r) \/
     (snd r = MNone /\ stepmon N (fst (bootstrap N C I A s c i)) = []).
   Proof.
-    unfold Machine.step. cbv zeta.
+    left. unfold Machine.step. cbv zeta.
     set (sc := bootstrap N C I A s c i).
-    destruct (stepmon N (fst sc)) eqn:Hsm.
-    - (* generation 0 is always performed *)
-      cbn [fst snd]. left. apply terminated_sound.
-    - set (pre := terminated (fst sc) (snd sc)).
-      destruct (snd pre) eqn:Hm; cbn [fst snd].
-      + left. apply terminated_sound.
-      + left. rewrite <- Hm. apply terminated_sound.
-      + left. rewrite <- Hm. apply terminated_sound.
-      + left. rewrite <- Hm. apply terminated_sound.
+    set (pre := match stepmon N (fst sc) with [] => (fst sc, MNone) | _ => terminated (fst sc) (snd sc) end).
+    assert (Hpre : snd pre <> MNone -> msg_true (fst pre) (snd sc) (snd pre)).
+    { subst pre. destruct (stepmon N (fst sc)); [intros H; now elim H|]. intros _. apply terminated_sound. }
+    destruct (snd pre) eqn:Hm.
+    - (* an iteration is performed: the message is Terminated's verdict on the final state *)
+      match goal with |- context [Machine.terminated N C I A ?s0 ?c0] =>
+        match goal with |- msg_true (fst (fst (fst (Machine.terminated N C I A ?s1 ?c1), _, _))) _ _ =>
+          generalize s1; generalize c1 end end.
+      intros c1 s1. cbn [fst snd]. apply terminated_sound.
+    - cbn [fst snd]. apply Hpre. congruence.
+    - cbn [fst snd]. apply Hpre. congruence.
+    - cbn [fst snd]. apply Hpre. congruence.
   Qed.
 
   (* Step: when, after the initial evaluation, a limit is reached / the termination holds / an exit was requested,
@@ -138,3 +141,188 @@ Section Stop.
     apply IH.
   Qed.
 End Stop.
+
+(* ---------- Solve always returns ---------- *)
+Section SolveTerminates.
+  Variable N : Num.
+  Variable inf : T N.
+  Notation sys := (sys N).
+  Variables C I : Type.
+  Variable A : algo N C I.
+
+  Definition ehlen (s : sys) (c : C) : nat := length (energy_history N C I A s c).
+
+  (* every executed _Step makes the energy history at least one entry longer (true of both DE solvers: one record per generation) *)
+  Hypothesis Hprogress : forall s c i,
+    let r := run_prog inf (a_nested N C I A) s (a_step N C I A s c i) in
+    (S (ehlen s c) <= ehlen (set_stepmon N (fst r) (stepmon N (fst r) ++ snd (snd r))) (fst (snd r)))%nat.
+  (* Finalize never shortens it, (re)decoration does not touch it *)
+  Hypothesis Hfinal : forall s c,
+    (ehlen s c <= ehlen (set_stepmon N s (stepmon N s ++ snd (a_finalize N C I A s c))) (fst (a_finalize N C I A s c)))%nat.
+  Hypothesis Hdeco : forall s c i, a_ehist_extra N C I A (a_decorate N C I A s c i) = a_ehist_extra N C I A c.
+
+  Lemma ehlen_frame s s' c : stepmon N s' = stepmon N s -> ehlen s' c = ehlen s c.
+  Proof. unfold ehlen, energy_history. now intros ->. Qed.
+
+  (* the limits, once absolute, are not changed by Step *)
+  Definition abs_limits (mi mf : Z) (s : sys) : Prop := maxiter N s = LAbs mi /\ maxfun N s = LAbs mf.
+
+  Lemma abs_terminated mi mf s c : abs_limits mi mf s -> abs_limits mi mf (fst (terminated N C I A s c)).
+  Proof. intros [H1 H2]. unfold abs_limits, terminated, resolve_limits. cbn. rewrite H1, H2. auto. Qed.
+
+  Lemma abs_objective mi mf nested s x : abs_limits mi mf s -> abs_limits mi mf (fst (objective N inf nested s x)).
+  Proof.
+    intros H. unfold objective. cbv zeta.
+    destruct (outside N (box N s) _); destruct (energy_of N s _); exact H.
+  Qed.
+
+  Lemma abs_run_prog mi mf nested R (p : prog N R) : forall s,
+    abs_limits mi mf s -> abs_limits mi mf (fst (run_prog inf nested s p)).
+  Proof.
+    induction p as [x|x k IH|x k IH]; intros s H; simpl; auto.
+    apply IH. apply abs_objective. exact H.
+  Qed.
+
+  Lemma step_keeps_abs_limits s c i mi mf :
+    abs_limits mi mf s -> abs_limits mi mf (fst (fst (step N inf C I A s c i))).
+  Proof.
+    intros H. unfold step. cbv zeta.
+    set (sc := bootstrap N C I A s c i).
+    assert (H1 : abs_limits mi mf (fst sc)).
+    { subst sc. unfold bootstrap. destruct (live N s); [exact H|]. exact H. }
+    set (pre := match stepmon N (fst sc) with [] => (fst sc, MNone) | _ => terminated N C I A (fst sc) (snd sc) end).
+    assert (H2 : abs_limits mi mf (fst pre)).
+    { subst pre. destruct (stepmon N (fst sc)); auto. apply abs_terminated; auto. }
+    destruct (snd pre) eqn:Hm; try exact H2.
+    set (r := run_prog inf (a_nested N C I A) (fst pre) (a_step N C I A (fst pre) (snd sc) i)).
+    assert (H3 : abs_limits mi mf (fst r)) by (apply abs_run_prog; exact H2).
+    set (s2' := set_fcalls N (fst r) (a_fix_counter N C I A (fst pre) (fst r) (fst (snd r)))).
+    set (s3 := set_stepmon N s2' (stepmon N s2' ++ snd (snd r))).
+    assert (H5 : abs_limits mi mf s3) by exact H3.
+    set (s4 := if has_cb N s3 then set_cblog N s3 (cblog N s3 ++ [fst (a_best N C I A (fst (snd r)))]) else s3).
+    assert (H6 : abs_limits mi mf s4) by (subst s4; destruct (has_cb N s3); exact H5).
+    set (t1 := terminated N C I A s4 (fst (snd r))).
+    assert (H7 : abs_limits mi mf (fst t1)) by (apply abs_terminated; exact H6).
+    set (fc := match snd t1 with MNone => (fst t1, fst (snd r)) | _ => finalize N C I A (fst t1) (fst (snd r)) end).
+    assert (H8 : abs_limits mi mf (fst fc)) by (subst fc; destruct (snd t1); exact H7).
+    cbn [fst snd]. apply abs_terminated. exact H8.
+  Qed.
+
+  Lemma ehlen_finalize s c : (ehlen s c <= ehlen (fst (finalize N C I A s c)) (snd (finalize N C I A s c)))%nat.
+  Proof.
+    pose proof (Hfinal s c) as H. unfold finalize. cbn [fst snd].
+    unfold ehlen, energy_history in *. cbn [stepmon set_live set_stepmon] in *. exact H.
+  Qed.
+
+  (* a Step that reports no stop has made the energy history strictly longer (when it was non-empty before) or non-empty *)
+  Lemma step_progress s c i :
+    snd (step N inf C I A s c i) = MNone ->
+    (S (ehlen s c) <= ehlen (fst (fst (step N inf C I A s c i))) (snd (fst (step N inf C I A s c i))))%nat.
+  Proof.
+    unfold step. cbv zeta.
+    set (sc := bootstrap N C I A s c i).
+    set (pre := match stepmon N (fst sc) with [] => (fst sc, MNone) | _ => terminated N C I A (fst sc) (snd sc) end).
+    destruct (snd pre) eqn:Hm; [|intros H; discriminate H..].
+    set (r := run_prog inf (a_nested N C I A) (fst pre) (a_step N C I A (fst pre) (snd sc) i)).
+    set (s2' := set_fcalls N (fst r) (a_fix_counter N C I A (fst pre) (fst r) (fst (snd r)))).
+    set (s3 := set_stepmon N s2' (stepmon N s2' ++ snd (snd r))).
+    set (s4 := if has_cb N s3 then set_cblog N s3 (cblog N s3 ++ [fst (a_best N C I A (fst (snd r)))]) else s3).
+    set (t1 := terminated N C I A s4 (fst (snd r))).
+    set (fc := match snd t1 with MNone => (fst t1, fst (snd r)) | _ => finalize N C I A (fst t1) (fst (snd r)) end).
+    intros _. cbn [fst snd].
+    assert (E1 : ehlen (fst sc) (snd sc) = ehlen s c).
+    { subst sc. unfold bootstrap. destruct (live N s); [reflexivity|]. cbn [fst snd].
+      destruct (box N s); [|reflexivity]. unfold ehlen, energy_history. cbn [stepmon set_live]. now rewrite Hdeco. }
+    assert (E2 : ehlen (fst pre) (snd sc) = ehlen s c).
+    { subst pre. destruct (stepmon N (fst sc)); [exact E1|]. rewrite <- E1. apply ehlen_frame. reflexivity. }
+    pose proof (Hprogress (fst pre) (snd sc) i) as P. cbv zeta in P. fold r in P. rewrite E2 in P.
+    assert (P3 : (S (ehlen s c) <= ehlen s3 (fst (snd r)))%nat).
+    { replace (ehlen s3 (fst (snd r))) with (ehlen (set_stepmon N (fst r) (stepmon N (fst r) ++ snd (snd r))) (fst (snd r))); [exact P|].
+      apply ehlen_frame. reflexivity. }
+    assert (P4 : (S (ehlen s c) <= ehlen s4 (fst (snd r)))%nat).
+    { replace (ehlen s4 (fst (snd r))) with (ehlen s3 (fst (snd r))); [exact P3|].
+      symmetry. apply ehlen_frame. subst s4. destruct (has_cb N s3); reflexivity. }
+    assert (P5 : (S (ehlen s c) <= ehlen (fst t1) (fst (snd r)))%nat).
+    { replace (ehlen (fst t1) (fst (snd r))) with (ehlen s4 (fst (snd r))); [exact P4|].
+      symmetry. apply ehlen_frame. reflexivity. }
+    assert (P6 : (S (ehlen s c) <= ehlen (fst fc) (snd fc))%nat).
+    { subst fc. destruct (snd t1); try exact P5;
+        (eapply Nat.le_trans; [exact P5|apply ehlen_finalize]). }
+    replace (ehlen (fst (terminated N C I A (fst fc) (snd fc))) (snd fc)) with (ehlen (fst fc) (snd fc)); [exact P6|].
+    symmetry. apply ehlen_frame. reflexivity.
+  Qed.
+
+  (* Terminated reports a stop as soon as the generation limit is reached *)
+  Lemma terminated_at_generation_limit s c mi mf :
+    abs_limits mi mf s -> (mi <= generations N C I A s c)%Z -> snd (terminated N C I A s c) <> MNone.
+  Proof.
+    intros [Hi Hf] Hg. unfold terminated. cbv zeta. cbn [snd].
+    assert (Er : resolve_limits N C I A s c = set_limits N s (LAbs mi) (LAbs mf)).
+    { unfold resolve_limits. rewrite Hi, Hf. reflexivity. }
+    rewrite Er. cbn [maxfun maxiter set_limits].
+    destruct (Z.leb mf (fcalls N (set_limits N s (LAbs mi) (LAbs mf)))); [discriminate|].
+    replace (generations N C I A (set_limits N s (LAbs mi) (LAbs mf)) c) with (generations N C I A s c) by reflexivity.
+    apply Z.leb_le in Hg. rewrite Hg. discriminate.
+  Qed.
+
+  (* a Step on a state with absolute limits reports a stop as soon as the history is longer than the generation limit *)
+  Lemma step_stops_beyond_limit s c i mi mf :
+    abs_limits mi mf s -> (mi < Z.of_nat (ehlen s c))%Z -> stepmon N s <> [] ->
+    snd (step N inf C I A s c i) <> MNone.
+  Proof.
+    intros Hl Hlen Hsm.
+    set (sc := bootstrap N C I A s c i).
+    assert (Es : stepmon N (fst sc) = stepmon N s) by (subst sc; unfold bootstrap; destruct (live N s); reflexivity).
+    assert (Ee : a_ehist_extra N C I A (snd sc) = a_ehist_extra N C I A c).
+    { subst sc. unfold bootstrap. destruct (live N s); [reflexivity|]. cbn [snd]. destruct (box N s); [apply Hdeco|reflexivity]. }
+    assert (Hl' : abs_limits mi mf (fst sc)) by (subst sc; unfold bootstrap; destruct (live N s); exact Hl).
+    assert (Hg : (mi <= generations N C I A (fst sc) (snd sc))%Z).
+    { unfold generations, energy_history. rewrite Es, Ee. unfold ehlen, energy_history in Hlen. lia. }
+    pose proof (terminated_at_generation_limit (fst sc) (snd sc) mi mf Hl' Hg) as Hstop.
+    assert (Hsm' : stepmon N (fst sc) <> []) by (rewrite Es; exact Hsm).
+    rewrite (no_step_when_stopped N inf C I A s c i Hsm' Hstop). cbn [snd]. exact Hstop.
+  Qed.
+
+  Hypothesis Hextra : forall c, (length (a_ehist_extra N C I A c) <= 1)%nat.
+
+  Local Opaque step.
+  (* Solve always returns: with absolute limits (they are absolute after the first Terminated) a fuel of
+     (generation limit + 3 - length of the energy history) Steps is enough for the loop to stop by itself *)
+  Theorem solve_terminates : forall f s c is dflt mi mf,
+    abs_limits mi mf s -> (0 <= mi)%Z ->
+    (Z.to_nat (mi + 3) <= S f + ehlen s c)%nat ->
+    snd (solve N inf C I A (S f) s c is dflt) = true.
+  Proof.
+    induction f as [|f IH]; intros s c is dflt mi mf Hl Hmi Hfuel.
+    - cbn [solve]. destruct (snd (step N inf C I A s c (hd dflt is))) eqn:Hm; cbn [snd]; try reflexivity.
+      exfalso.
+      assert (Hlen : (mi < Z.of_nat (ehlen s c))%Z).
+      { assert (Hz : (mi + 3 <= Z.of_nat (1 + ehlen s c))%Z).
+        { rewrite <- (Z2Nat.id (mi + 3)) by lia. apply Nat2Z.inj_le. exact Hfuel. }
+        rewrite Nat2Z.inj_add in Hz. change (Z.of_nat 1) with 1%Z in Hz. lia. }
+      assert (Hsm : stepmon N s <> []).
+      { intros E.
+        assert (H3 : (3 <= Z.to_nat (mi + 3))%nat) by (apply (Z2Nat.inj_le 3 (mi + 3)); lia).
+        assert (He : ehlen s c = length (a_ehist_extra N C I A c)).
+        { unfold ehlen, energy_history. rewrite E. reflexivity. }
+        pose proof (Hextra c) as H1. rewrite He in Hfuel.
+        generalize dependent (Z.to_nat (mi + 3)). intros n Hn H3. lia. }
+      exact (step_stops_beyond_limit s c (hd dflt is) mi mf Hl Hlen Hsm Hm).
+    - change (solve N inf C I A (S (S f)) s c is dflt) with
+        (let r := step N inf C I A s c (hd dflt is) in
+         match snd r with
+         | MNone => solve N inf C I A (S f) (fst (fst r)) (snd (fst r)) (tl is) dflt
+         | m => (fst (fst r), snd (fst r), m, true)
+         end).
+      cbv zeta.
+      destruct (snd (step N inf C I A s c (hd dflt is))) eqn:Hm; cbn [snd]; try reflexivity.
+      apply (IH _ _ _ _ mi mf).
+      + apply step_keeps_abs_limits. exact Hl.
+      + exact Hmi.
+      + pose proof (step_progress s c (hd dflt is) Hm) as Hp.
+        set (n' := ehlen (fst (fst (step N inf C I A s c (hd dflt is)))) (snd (fst (step N inf C I A s c (hd dflt is))))) in *.
+        set (n0 := ehlen s c) in *. set (n := Z.to_nat (mi + 3)) in *.
+        clearbody n' n0 n. clear -Hp Hfuel. lia.
+  Qed.
+  Local Transparent step.
+End SolveTerminates.
